@@ -387,13 +387,23 @@ class Effects:
                 rm = self.registry_member(m, d[1])
                 if rm is not None:
                     return [rm]
-            if d is not None and d[0] == 'elem':
-                # for transition_function in transition_functions
-                it = d[1]
-                if isinstance(it, ast.Name):
-                    role = self.param_role(q, it.id)
-                    if role:
-                        return list(self.index.registries.get(role, {}).values())
+            # for transition_function in transition_functions / (f,) = transition_functions /
+            # f = transition_functions[0]: every binding of the name draws from a parameter
+            # holding components of one role
+            roles = set()
+            for d_ in w.defs.get(fe.id, []):
+                it = None
+                if d_[0] in ('elem', 'value'):
+                    it = d_[1]
+                elif d_[0] in ('unpack', 'elem-unpack'):
+                    it = d_[1][0]
+                if d_[0] == 'value' and isinstance(it, ast.Subscript):
+                    it = it.value
+                elif d_[0] == 'value':
+                    it = None
+                roles.add(self.param_role(q, it.id) if isinstance(it, ast.Name) else None)
+            if len(roles) == 1 and None not in roles:
+                return list(self.index.registries.get(roles.pop(), {}).values())
         if isinstance(fe, ast.Attribute) and not isinstance(r, tuple):
             # method by name on an unknown receiver: all package methods of that name
             cands = []
